@@ -162,6 +162,15 @@ func unitBytes(u Unit) []byte {
 		}
 		return b[:44]
 	}
+	// what an enhancement / service packet carries behind its designation code: bytes that would read as boxed
+	// text if the packet were mistaken for a row
+	looksLikeText := func(s string) []byte {
+		b := []byte{parity(0x0b, false), parity(0x0b, false)}
+		for _, c := range []byte(s) {
+			b = append(b, parity(c, false))
+		}
+		return append(b, parity(0x0a, false), parity(0x0a, false))
+	}
 	switch u.K {
 	case "hdr":
 		d := []byte{ham[u.Pu&0xf], ham[u.Pt&0xf], ham[0], ham[0], ham[0], ham[0], ham[0], ham[0]}
@@ -185,14 +194,14 @@ func unitBytes(u Unit) []byte {
 	case "row":
 		return append([]byte{0x03, 0x2c}, payload(u.Mag, u.Row, rowBytes(u.Cells))...)
 	case "x26":
-		return append([]byte{0x03, 0x2c}, payload(u.Mag, 26, []byte{ham[0]})...)
+		return append([]byte{0x03, 0x2c}, payload(u.Mag, 26, append([]byte{ham[0]}, looksLikeText("X26")...))...)
 	case "x28":
 		// designation code 0, triplet 1 with format bits 0 (format 1) and a G0 designation
-		return append([]byte{0x03, 0x2c}, payload(u.Mag, 28, []byte{ham[0], 0x00, 0x00, 0x00})...)
+		return append([]byte{0x03, 0x2c}, payload(u.Mag, 28, append([]byte{ham[0], 0x00, 0x00, 0x00}, looksLikeText("X28")...))...)
 	case "m29":
-		return append([]byte{0x03, 0x2c}, payload(u.Mag, 29, []byte{ham[0], 0x00, 0x00, 0x00})...)
+		return append([]byte{0x03, 0x2c}, payload(u.Mag, 29, append([]byte{ham[0], 0x00, 0x00, 0x00}, looksLikeText("M29")...))...)
 	case "x30":
-		return append([]byte{0x03, 0x2c}, payload(8, 30, []byte{ham[0]})...)
+		return append([]byte{0x03, 0x2c}, payload(8, 30, append([]byte{ham[0]}, looksLikeText("X30")...))...)
 	case "stuff":
 		b := []byte{0xff, 0x2c}
 		for i := 0; i < 44; i++ {
